@@ -122,7 +122,7 @@ def mk_item(hist, bs, rate, nb, tier, opts=None):
     for k in ('config', 'preload', 'chunk_cache_size', 'wild', 'fixdims'):
         if k in opts:
             desc += '|%s=%s' % (k, opts[k])
-    it = Item(desc, lambda: history_fn(hist, bs, rate, nb, opts), timeout_s=170 if tier == 'quick' else 1200,
+    it = Item(desc, lambda: history_fn(hist, bs, rate, nb, opts), timeout_s=170 if tier == 'quick' else 420,
               solver_ms=10000 if tier == 'quick' else 60000)
     it.meta = dict(hist=list(hist), bs=list(bs), rate=rate, nb=list(nb), opts=opts)
     return it
